@@ -200,6 +200,7 @@ struct Engine {
       else if (a == "--deadline") deadline_s = std::atof(next().c_str());
       else if (a == "--threads") nthreads = std::atoi(next().c_str());
       else if (a == "--only") only = next();
+      else if (a == "--op-exact") only_exact = next();
       else if (a == "--config") config = next();
       else if (a == "--cap") cap = std::strtoull(next().c_str(), nullptr, 10);
       else if (a == "--quiet") quiet = true;
@@ -261,7 +262,9 @@ struct Engine {
 #endif
   }
   // --only: op-name substrings separated by ";;" (any of them selects the op)
-  static bool selected(const std::string& only, const std::string& name) {
+  std::string only_exact;   // --op-exact NAME: run exactly this operation (crash triage / crash replay run one operation per process)
+  bool selected(const std::string& only, const std::string& name) const {
+    if (!only_exact.empty()) return name == only_exact;
     if (only.empty()) return true; size_t p = 0;
     while (true) { size_t q = only.find(";;", p); std::string t = only.substr(p, q == std::string::npos ? std::string::npos : q - p); if (!t.empty() && name.find(t) != std::string::npos) return true; if (q == std::string::npos) return false; p = q + 2; } }
   int run(const std::string& tier, const std::string& out, const std::string& only) {
